@@ -435,3 +435,14 @@ func PathOpts(path string) []Opt {
 	flush()
 	return out
 }
+
+// PathOf joins the Uri-Path options of m.
+func PathOf(m Msg) string {
+	p := ""
+	for _, o := range m.Opts {
+		if o.ID == 11 {
+			p += "/" + string(o.Val)
+		}
+	}
+	return p
+}
